@@ -7,7 +7,7 @@ for p in "${BENIGN_DIR:-$V/benign}"/*.${BENIGN_EXT:-patch}; do
     name="$(basename "$p")"
     [[ -n "$filter" && "$name" != *"$filter"* ]] && continue
     res=""
-    for prop in C01 C02 C03 C10 C11 C12 C13 C14; do
+    for prop in ${BENIGN_PROPS:-C01 C02 C03 C10 C11 C12 C13 C14}; do
         tmp="$(mktemp)"
         "$V/tools/run_on_copy.sh" "$p" "$prop" quick >"$tmp" 2>&1; rc=$?
         if [ $rc -ne 0 ]; then
